@@ -30,6 +30,7 @@ type PropSpec struct {
 	MaxSteps    int
 	MaxDepth    int
 	BoundIsViol bool
+	Cross       string // thorough tier: second back end re-deciding every obligation
 	Repeat      int // native replay repetitions (map-order dependent properties)
 	Bounds      []string
 	Assumptions []string
@@ -182,12 +183,20 @@ func reproduces(w *engine.Witness, o Outcome) bool {
 	return false
 }
 
+func crossNote(st *engine.Stats) string {
+	if st.CrossQ == 0 {
+		return ""
+	}
+	return fmt.Sprintf(" cross=%d/unknown=%d", st.CrossQ, st.CrossUnknown)
+}
+
 func cmdCheck(args []string) int {
 	fs := flag.NewFlagSet("check", flag.ExitOnError)
 	repo := fs.String("repo", "/repo", "")
 	tier := fs.String("tier", "", "quick|thorough")
 	workers := fs.Int("j", 0, "")
 	solver := fs.String("solver", "z3", "")
+	cross := fs.String("cross", "", "second back end that re-decides every obligation (cvc5 | z3-new); default: VERIF_CROSS")
 	only := fs.String("only", "", "restrict to harnesses containing this substring (debug)")
 	fs.Parse(args)
 	if fs.NArg() != 1 {
@@ -244,6 +253,13 @@ func cmdCheck(args []string) int {
 	}
 	known := loadKnown(id)
 	opts := engine.Opts{MaxSteps: spec.MaxSteps, MaxDepth: spec.MaxDepth, MaxLoop: 1 << 20, MapOrderSymbolic: spec.MapOrderSym, WantReach: true, Params: tr.Params, Known: known, BoundIsViolation: spec.BoundIsViol}
+	if *cross == "" {
+		*cross = os.Getenv("VERIF_CROSS")
+	}
+	if *cross == "" && *tier == "thorough" && spec.Cross != "" {
+		*cross = spec.Cross
+	}
+	opts.CrossKind = *cross
 	if opts.MaxSteps == 0 {
 		opts.MaxSteps = 5000000
 	}
@@ -270,6 +286,9 @@ func cmdCheck(args []string) int {
 		total.Discharged += st.Discharged
 		total.Queries += st.Queries
 		total.SolverTime += st.SolverTime
+		total.CrossQ += st.CrossQ
+		total.CrossUnknown += st.CrossUnknown
+		total.CrossTime += st.CrossTime
 		for k, v := range st.ByEnd {
 			total.ByEnd[k] += v
 		}
@@ -289,7 +308,7 @@ func cmdCheck(args []string) int {
 		if st.PathLimitHit {
 			total.PathLimitHit = true
 		}
-		fmt.Printf("  %-44s paths=%d ends=%v obligations=%d discharged=%d candidates=%d known=%d queries=%d wall=%.1fs\n", h, st.Paths, st.ByEnd, st.Obligations, st.Discharged, len(st.Violations), len(st.KnownHits), st.Queries, st.Wall.Seconds())
+		fmt.Printf("  %-44s paths=%d ends=%v obligations=%d discharged=%d candidates=%d known=%d queries=%d%s wall=%.1fs\n", h, st.Paths, st.ByEnd, st.Obligations, st.Discharged, len(st.Violations), len(st.KnownHits), st.Queries, crossNote(st), st.Wall.Seconds())
 	}
 
 	// collect witnesses for native replay
@@ -488,6 +507,10 @@ func cmdCheck(args []string) int {
 			"queries":                       total.Queries,
 			"solver_time_s":                 total.SolverTime.Seconds(),
 			"solver":                        *solver,
+			"cross_solver":                  *cross,
+			"cross_queries":                 total.CrossQ,
+			"cross_unknown":                 total.CrossUnknown,
+			"cross_solver_time_s":           total.CrossTime.Seconds(),
 			"path_ends":                     total.ByEnd,
 			"harnesses":                     perHarness,
 			"functions_encoded":             funcs,
